@@ -3,6 +3,8 @@
 CONSTANTS
   Tier = "q"
   PointerReceiverMarshaller <- EveryValueRecvDeviates
+  NestingBound = 1000
+  CounterCountsElements = FALSE
   Families <- DevFamilies
 INIT Init
 NEXT Next
